@@ -1,7 +1,7 @@
 (* C03 — non-vacuity examples and sanity runs. *)
 From Coq Require Import ZArith List Bool Arith Lia.
 Import ListNotations.
-From GV Require Import Common.Wire C03.Model C03.Lemmas.
+From GV Require Import Common.Wire Common.PyInt gen.Gen_links C03.Model C03.Lemmas.
 Open Scope Z_scope.
 
 (* ---------- discover on a graph with a cycle, a diamond, a two-input link and an unreachable part ---------- *)
@@ -260,3 +260,79 @@ Proof. vm_compute. reflexivity. Qed.
 (* wire: one discover case and one small history through run_case *)
 Eval vm_compute in run_case (T 2 [T 0 [enc_cid a];
    T 0 [T 0 [T 0 [enc_cid a]; enc_cid b; T 0 [leaf 0; zs [1]]]; T 1 [T 0 [enc_cid b]; enc_cid c; T 0 [leaf 0; zs [1]]]]]).
+
+(* ---------- the functions translated from glue/core/link_manager.py (gen/Gen_links.v) on the same graph ---------- *)
+Definition GD : gdata := mkgdata [a] [] [].
+
+(* the generated discover_links, run: the same dict as the hand model's table, in the same order *)
+Example gen_discover_runs :
+  g_discover GD L = Ok [ (b, mklink 0 [a] b (mkfn 1 [2])); (c, mklink 3 [a] c (mkfn 5 [1]));
+                         (e, mklink 4 [b; c] e (mkfn 0 [1; 1])) ].
+Proof. vm_compute. reflexivity. Qed.
+
+(* a different iteration order of the sets (reversed) and more fuel: the same result, as gen_discover_total says *)
+Example gen_discover_other_order :
+  g_discover_with (@rev cid) 200 GD L = g_discover GD L.
+Proof. vm_compute. reflexivity. Qed.
+
+Lemma rev_iter_ok : iter_ok (@rev cid).
+Proof. intros s x. symmetry. apply in_rev. Qed.
+
+(* main and coordinate components both seed the closure; an empty-input link costs 1; out of fuel is an explicit error *)
+Example gen_discover_coord_and_constant :
+  g_discover (mkgdata [] [a] []) [mklink 0 [a] b (mkfn 1 [2]); mklink 1 [] u (mkfn 4 [])]
+  = Ok [ (b, mklink 0 [a] b (mkfn 1 [2])); (u, mklink 1 [] u (mkfn 4 [])) ]
+  /\ g_discover_with (fun s => s) 2 GD L = Err OutOfFuel.
+Proof. split; vm_compute; reflexivity. Qed.
+
+Example gen_accessible_runs :
+  map l_id (g_accessible [a; b] L) = [0; 1; 2; 3] /\ map l_id (g_accessible [a; a; c; b] L) = [0; 1; 2; 3; 4].
+Proof. split; vm_compute; reflexivity. Qed.
+
+(* the hypotheses of the transported theorems are met (an Ok result with three keys) and their conclusions are not
+   trivial: e is a key, derivable at minimum height 2, reads 36 = b + c = (2a+1) + (a+5); w is no key and unreadable *)
+Example gen_e_reachable : dict_mem cid_eqb
+    [ (b, mklink 0 [a] b (mkfn 1 [2])); (c, mklink 3 [a] c (mkfn 5 [1])); (e, mklink 4 [b; c] e (mkfn 0 [1; 1])) ] e = true
+  /\ (exists n, Derivable [a] L e n) /\ ~ In e [a].
+Proof.
+  assert (H : g_discover_with (fun s => s) (fuel_for L) GD L = Ok [ (b, mklink 0 [a] b (mkfn 1 [2])); (c, mklink 3 [a] c (mkfn 5 [1]));
+                         (e, mklink 4 [b; c] e (mkfn 0 [1; 1])) ]) by exact gen_discover_runs.
+  pose proof (Lemmas.gen_discover_reachable _ _ _ _ _ GenEquiv.iter_id_ok (le_n _) H e) as Hr.
+  split; [vm_compute; reflexivity|]. apply Hr. vm_compute. reflexivity.
+Qed.
+
+Example gen_values_read :
+  match g_discover GD L with
+  | Ok r => (read [a] env0 (table_of_links r) b, read [a] env0 (table_of_links r) e, read [a] env0 (table_of_links r) w,
+             select [a] env0 (table_of_links r) e 35)
+  | Err _ => (None, None, None, None)
+  end = (Some 21, Some 36, None, Some true).
+Proof. vm_compute. reflexivity. Qed.
+
+(* find_dependents (translated): y1 = f(a) through link 10, y2 = g(y1), y3 = h(b): asking about link 10 gives {y1, y2} *)
+Example gen_find_dependents_runs :
+  let y1 : cid := (0, 10) in let y2 : cid := (0, 11) in let y3 : cid := (0, 12) in
+  let l1 := mklink 10 [a] y1 (mkfn 0 [1]) in
+  let dd := mkgdata [a; b] [] [mklink 11 [y1] y2 (mkfn 0 [1]); l1; mklink 12 [b] y3 (mkfn 0 [1])] in
+  g_find_dependents 5 dd l1 = Ok [y1; y2] /\ g_find_dependents 5 dd (mklink 99 [a] y1 (mkfn 0 [1])) = Ok [].
+Proof. split; vm_compute; reflexivity. Qed.
+
+(* the translated handlers on three registered links (ids 0 1 2; 1 is registered twice): removing attribute b drops 0 and
+   both copies of 1 - three updates -, removing dataset 4 (attributes u, w) drops only link 2 *)
+Definition POOL : list entry :=
+  [ mkent 0 false None [(mklink 0 [a] b (mkfn 1 [2]), None)];
+    mkent 1 true None [(mklink 10 [b] c (mkfn 0 [3]), None); (mklink 11 [c] b (mkfn 0 [1]), None)];
+    mkent 2 false None [(mklink 5 [u] w (mkfn 0 [1]), None)] ].
+Example gen_component_removed_runs :
+  g_component_removed POOL [1; 2; 0; 1] b = Ok ([2], [EvUpdate _ _ _; EvUpdate _ _ _; EvUpdate _ _ _], tt)
+  /\ g_data_removed POOL [1; 2; 0; 1] 4 [u; w] = Ok ([1; 0; 1], [EvUpdate _ _ _], tt)
+  /\ g_data_removed POOL [1; 2; 0; 1] 9 [u; w] = Ok ([1; 2; 0; 1], [], tt).
+Proof. repeat split; vm_compute; reflexivity. Qed.
+
+(* the translated update loop on two datasets: the first is handed b c e (through links 0 3 4), the second (own attribute c: no link starts from c alone) an empty dict *)
+Example gen_update_runs :
+  match g_update (fun s => s) (fuel_for L) L [GD; mkgdata [c] [] []] with
+  | Ok (_, [EvSet _ _ _ d1 c1; EvSet _ _ _ d2 c2], _) => (map fst c1, map fst c2) = ([b; c; e], []) /\ d1 = GD /\ map (fun kv => l_id (snd (snd kv))) c1 = [0; 3; 4]
+  | _ => False
+  end.
+Proof. vm_compute. repeat split; reflexivity. Qed.
